@@ -7,6 +7,7 @@ import (
 	"time"
 
 	"verifmc/engine"
+	"verifmc/hub"
 )
 
 type RunOpts struct {
@@ -55,7 +56,7 @@ func BFSRunner(mk func(tier string) (Spec, engine.Config, []string)) func(tier s
 				if o.Workers > 0 {
 					cfg.Workers = o.Workers
 				}
-				res := engine.Run(Adapter{Spec: spec}, cfg)
+				res := runEngine(Adapter{Spec: spec}, cfg)
 				return BFSOutput(res, cfg, assumptions)
 			},
 			Replay: func(tier string, seed int, ops []engine.Op) []engine.Violation {
@@ -139,6 +140,29 @@ type MultiCase struct {
 	Cfg  engine.Config
 }
 
+// runEngine runs the search; a module InitGenesis panic on the scenario's own (admissible) genesis is a
+// C15 finding (a chain cannot be initialised from that state) and an internal error for every other check.
+func runEngine(sc engine.Scenario, cfg engine.Config) (res *engine.Result) {
+	defer func() {
+		if r := recover(); r != nil {
+			gp, ok := r.(hub.GenesisPanic)
+			if !ok {
+				panic(r)
+			}
+			res = &engine.Result{Scenario: sc.ID(), Counters: map[string]int{}, OpCounts: map[string]int{}, Pruned: map[string]int{}, Known: map[string]*engine.KnownHit{}}
+			if sc.ID() == "C15" {
+				res.Violations = []engine.Found{{Violation: engine.Violation{Property: "C15", Rule: "genesis_cannot_be_initialised", Site: "InitGenesis",
+					Detail: fmt.Sprintf("InitGenesis panics on an admissible genesis state (as exported from a chain in that state): %v", gp.Value)}, Reproduced: 5}}
+				res.Samples = [][]string{{"<InitGenesis of the scenario genesis>"}}
+				res.States, res.Transitions = 1, 1
+			} else {
+				res.InternalError = "the chain cannot be started: " + gp.Error()
+			}
+		}
+	}()
+	return engine.Run(sc, cfg)
+}
+
 type genCase struct {
 	Name string
 	Sc   engine.Scenario
@@ -164,7 +188,7 @@ func multiRunnerGeneric(mk func(tier string) ([]genCase, []string)) func(tier st
 					if o.Workers > 0 {
 						cfg.Workers = o.Workers
 					}
-					res := engine.Run(c.Sc, cfg)
+					res := runEngine(c.Sc, cfg)
 					one := BFSOutput(res, cfg, nil)
 					states += res.States
 					trans += res.Transitions
